@@ -1,6 +1,8 @@
 import Driver.Common
 import Driver.C09
 import Log4rsModel.System.Spec
+import Log4rsModel.System.ReconfigSpec
+import Log4rsModel.Json.Spec
 /-
 System slice (hosted in C01; dispatched to from Driver/C01.lean when the first case field is `sys`).
 case (after `sys`):  appenders  rootLevel  rootRefs(,)  loggers(, of name;level;additive;refs(|))  thread?  records  snap
@@ -34,6 +36,7 @@ def decApp (s : String) : Option AppCase :=
     let mode ← decMode m
     let pre ← decOpt decBytes pre
     let thresholds ← decThresholds thr
+    if pat = "@json" then pure { name, app := { thresholds, pattern := [], mode, pre, kind := .json }, ast := [] } else
     let pattern ← decStr pat
     let ast ← C09.decAst ast
     pure { name, app := { thresholds, pattern, mode, pre }, ast }
@@ -77,14 +80,27 @@ structure Facts where
   pid : Nat
   tid : Nat
 
+/-- the record's MDC in the iteration order the harness observed (`none`: no such fact, case order) -/
+def orderMdc (order : Option (List (List Char))) (mdc : List (List Char × List Char)) : List (List Char × List Char) :=
+  match order with
+  | none => mdc
+  | some ks => ks.filterMap fun k => (mdc.find? (fun kv => kv.1 = k))
+
+def isJson (a : AppCase) : Bool := a.app.kind == .json
+
 def envOf (f : Facts) (thread : Option (List Char)) (mdc : List (List Char × List Char)) : Env where
   strftimeOk _ := true
-  dateText _ _ := []
+  -- the harness replaces the JSON `time` value by `T`
+  dateText fmt _ := if fmt = jsonTimeKey then ['T'] else []
   threadName := thread
   threadId := f.tid
   pid := f.pid
   mdc := mdc
   debugBuild := f.debug
+
+/-- `k:k:…;k:…;…` — per record the MDC keys in iteration order -/
+def decOrders (s : String) : Option (List (List (List Char))) :=
+  mapM? (fun r => mapM? decStr (decList ':' r)) (decList ';' s)
 
 def lookupApp (apps : List AppCase) (a : Name) : Option AppCase := apps.find? (fun x => x.name = a)
 
@@ -115,6 +131,15 @@ def firstDiff {α} [DecidableEq α] : List α → List α → Nat → Nat
   | a :: as, b :: bs, k => if a = b then firstDiff as bs (k + 1) else k
   | _, _, k => k
 
+/-- the lines of a text, each with its terminating `\n` (a last piece without one is a line too) -/
+def splitLines (cs : List Char) : List (List Char) :=
+  let rec go : List Char → List Char → List (List Char) → List (List Char)
+    | [], cur, acc => (if cur.isEmpty then acc else cur.reverse :: acc).reverse
+    | c :: rest, cur, acc => if c = '\n' then go rest [] ((c :: cur).reverse :: acc) else go rest (c :: cur) acc
+  go cs [] []
+
+instance : BEq AppCase := ⟨fun a b => a.name == b.name⟩
+
 def handle : Handler := fun cas obs =>
   match cas, obs with
   | [appsF, rootLevelF, rootRefsF, loggersF, threadF, recordsF, snapF], [implObs] =>
@@ -123,19 +148,24 @@ def handle : Handler := fun cas obs =>
         mapM? decRecord (splitOnChar '|' recordsF), decBool snapF with
     | some apps, some rootLevel, some rootAppenders, some loggers, some thread, some recs, some snap =>
       match splitOnChar ' ' implObs with
-      | [d, p, t, implResult] =>
-        match decBool d, decNat p, decNat t with
-        | some debug, some pid, some tid =>
+      | d :: p :: t :: implResult :: ordersF =>
+        match decBool d, decNat p, decNat t, mapM? decOrders ordersF with
+        | some debug, some pid, some tid, some ordersL =>
           let facts : Facts := { debug, pid, tid }
           let routing : Config := { appenders := apps.map (·.name), rootLevel, rootAppenders, loggers }
           let cfg := mkConfig apps routing
           let asts := astsOf apps
-          let rs : List SysRecord := recs.map fun r => { record := r.record, env := envOf facts thread r.mdc }
-          if apps.any (fun a => !C11.classifiable a.app.pattern) then badCase "character outside the sample table" else
-          if apps.any (fun a => showPats a.ast ≠ a.app.pattern) then badCase "pattern is not the printed AST" else
+          let orders : Option (List (List (List Char))) := ordersL.head?
+          let tail := String.join (ordersF.map (" " ++ ·))
+          let rs : List SysRecord := (recs.zipIdx).map fun (r, i) =>
+            { record := r.record, env := envOf facts thread (orderMdc (orders.bind (·[i]?)) r.mdc) }
+          if ordersF.length > 1 then badCase "observation" else
+          if apps.any (fun a => !isJson a && !C11.classifiable a.app.pattern) then badCase "character outside the sample table" else
+          if apps.any (fun a => !isJson a && showPats a.ast ≠ a.app.pattern) then badCase "pattern is not the printed AST" else
+          if apps.any isJson && orders.isNone && implResult ≠ "PANIC:harness" then badCase "MDC order facts missing" else
           let head := d ++ " " ++ p ++ " " ++ t ++ " "
           let valid := validB routing
-          let wf := apps.all (fun a => wfPats C11.profile.wordBits false a.ast)
+          let wf := apps.all (fun a => isJson a || wfPats C11.profile.wordBits false a.ast)
           -- the model
           let model :=
             if !valid then "INVALID"
@@ -147,6 +177,28 @@ def handle : Handler := fun cas obs =>
           let want : List (List Bytes) := prefixes.map fun pre => (specFiles cfg asts pre).map (·.2)
           let got : Option (List (List Bytes)) :=
             mapM? (fun s => mapM? decBytes (splitOnChar ',' s)) (splitOnChar '/' implResult)
+          -- JSON appenders: every line of the implementation's final file, behind what opening left,
+          -- is judged by the C12 specification (`Json.specLine`) for the record it belongs to
+          let jsonVerdict : Option String :=
+            match got.bind (·.getLast?) with
+            | none => none
+            | some files =>
+              (apps.zip files).findSome? fun (a, content) =>
+                if !isJson a then none else
+                let pre := Rolling.openContent a.app.mode a.app.pre
+                let expected : List SysRecord := rs.flatMap fun r => List.replicate (specCopies cfg a.name r) r
+                if content.take pre.length ≠ pre then some "FAIL:JSON appender: the file does not start with what opening left;sig=C01/sys-json-line" else
+                match decodeUtf8 (content.drop pre.length) with
+                | none => some "FAIL:JSON appender: the file is not UTF-8;sig=C01/sys-json-line"
+                | some text =>
+                  let lines := splitLines text
+                  if lines.length ≠ expected.length then
+                    some ("FAIL:JSON appender " ++ toString (apps.idxOf a) ++ ": " ++ toString lines.length ++ " lines for " ++
+                      toString expected.length ++ " deliveries;sig=C01/sys-json-line")
+                  else (lines.zip expected).findSome? fun (line, r) =>
+                    match Log4rs.Json.specLine (jsonEnv r) (jsonRecord r) line with
+                    | .ok => none
+                    | .fail clause => some ("FAIL:JSON appender: a line violates the C12 specification (" ++ clause ++ ");sig=C01/sys-json-line")
           let spec :=
             if !valid then "FAIL:generator produced an invalid configuration;sig=C01/sys-invalid-config"
             else if !wf then "FAIL:generator produced a pattern outside WF;sig=C01/sys-pattern-outside-wf"
@@ -155,7 +207,8 @@ def handle : Handler := fun cas obs =>
             else match got with
               | none => "FAIL:unreadable observation;sig=C01/sys-observation"
               | some got =>
-                if got = want then "ok"
+                if jsonVerdict.isSome then jsonVerdict.getD ""
+                else if got = want then "ok"
                 else if got.length ≠ want.length then "FAIL:number of snapshots;sig=C01/sys-observation"
                 else
                   let k := firstDiff got want 0
@@ -179,7 +232,7 @@ def handle : Handler := fun cas obs =>
           let delivered := copies.any fun cs => cs.any (· > 0)
           let thrRejects := apps.any fun a => rs.any fun r => onChain a.name r && !specAccepts a.app.thresholds r.level
           let bigLine := apps.any fun a => rs.any fun r =>
-            specCopies cfg a.name r > 0 && (specLine asts a.name r).length ≥ 1024
+            specCopies cfg a.name r > 0 && (specLine cfg asts a.name r).length ≥ 1024
           let tags := ["sys"] ++
             (if apps.any (fun a => attachedBy a.name ≥ 2) then ["shared-appender"] else []) ++
             (if copies.any (fun cs => cs.any (· ≥ 2)) then ["double-attachment"] else []) ++
@@ -200,10 +253,188 @@ def handle : Handler := fun cas obs =>
             (if rs.length ≥ 20 then ["long-history"] else []) ++
             (if apps.length ≥ 3 then ["many-appenders"] else []) ++
             (if delivered || thrRejects then [] else ["trivial"])
-          { model := head ++ model, spec, tags }
-        | _, _, _ => badCase "facts"
+          let tags := tags ++ (if apps.any isJson then ["json-appender"] else []) ++
+            (if apps.any isJson && apps.any (fun a => !isJson a) then ["json-and-pattern"] else [])
+          { model := head ++ model ++ tail, spec, tags }
+        | _, _, _, _ => badCase "facts"
       | _ => badCase "observation"
     | _, _, _, _, _, _, _ => badCase "decode"
+  | _, _ => badCase "arity"
+
+
+/-! ### stage 2 (A): `sys2` — histories with runtime reconfigurations
+
+case (after `sys2`):  P  fs0  thread?  snap  K  [appenders rootLevel rootRefs loggers]×K  ops
+observation: debug pid tid result; result = PANIC | INVALID | snapshots (`/`) of per-path (`,`) `-` | bytes
+Model: `sysRunOps` / `sysTraceOps` (System/Reconfig.lean); verdict: `specOps` (System/ReconfigSpec.lean)
+on the prefixes of the history against the implementation's snapshots. -/
+
+structure App2Case where
+  a : AppCase
+  path : Nat
+
+def decApp2 (s : String) : Option App2Case :=
+  match splitOnChar ';' s with
+  | [n, pth, m, thr, pat, ast] => do
+    let name ← decStr n
+    let path ← decNat pth
+    let mode ← decMode m
+    let thresholds ← decThresholds thr
+    if pat = "@json" then
+      pure { a := { name, app := { thresholds, pattern := [], mode, pre := none, kind := .json }, ast := [] }, path } else
+    let pattern ← decStr pat
+    let ast ← C09.decAst ast
+    pure { a := { name, app := { thresholds, pattern, mode, pre := none }, ast }, path }
+  | _ => none
+
+structure Cfg2 where
+  apps : List App2Case
+  routing : Config
+
+def decCfg2 : List String → Option Cfg2
+  | [appsF, rootLevelF, rootRefsF, loggersF] => do
+    let apps ← mapM? decApp2 (splitOnChar '|' appsF)
+    let rootLevel ← decNat rootLevelF
+    let rootAppenders ← decNames ',' rootRefsF
+    let loggers ← mapM? decLogger (decList ',' loggersF)
+    pure { apps, routing := { appenders := apps.map (·.a.name), rootLevel, rootAppenders, loggers } }
+  | _ => none
+
+def chunk4 : Nat → List String → Option (List (List String) × List String)
+  | 0, rest => some ([], rest)
+  | k + 1, a :: b :: c :: d :: rest => (chunk4 k rest).map fun (cs, r) => ([a, b, c, d] :: cs, r)
+  | _, _ => none
+
+def bundleOf (c : Cfg2) : SpecBundle :=
+  { b := { cfg := mkConfig (c.apps.map (·.a)) c.routing,
+           paths := fun n => match c.apps.find? (fun x => x.a.name = n) with
+             | some x => x.path
+             | none => 0 },
+    asts := astsOf (c.apps.map (·.a)) }
+
+inductive Op2 where
+  | record (r : RecCase)
+  | cfg (k : Nat)
+
+def decOp2 (s : String) : Option Op2 :=
+  if s.startsWith "r" then (decRecord (s.drop 1).toString).map Op2.record
+  else if s.startsWith "c" then (decNat (s.drop 1).toString).map Op2.cfg
+  else none
+
+def renderPaths (fs : List (Option Bytes)) : String := ",".intercalate (fs.map fun o => encOpt encBytes o)
+
+def renderWorlds (n : Nat) (os : List (Outcome Unit World)) : String :=
+  if os.any (fun o => (observeWorld n o).isNone) then "PANIC"
+  else "/".intercalate (os.map fun o => match observeWorld n o with | some fs => renderPaths fs | none => "PANIC")
+
+def pathsInj (c : Cfg2) : Bool := (c.apps.map (·.path)).Nodup
+
+def handle2 : Handler := fun cas obs =>
+  match cas, obs with
+  | pF :: fs0F :: threadF :: snapF :: kF :: rest, [implObs] =>
+    match decNat pF, mapM? (decOpt decBytes) (splitOnChar ',' fs0F), decOpt decStr threadF, decBool snapF, decNat kF with
+    | some np, some fs0L, some thread, some snap, some k =>
+      match chunk4 k rest with
+      | some (cfgFs, [opsF]) =>
+        match mapM? decCfg2 cfgFs, mapM? decOp2 (splitOnChar '|' opsF), splitOnChar ' ' implObs with
+        | some cfgs, some ops, d :: p :: t :: implResult :: ordersF =>
+          match decBool d, decNat p, decNat t, cfgs, mapM? decOrders ordersF with
+          | some debug, some pid, some tid, c0 :: _, some ordersL =>
+            let facts : Facts := { debug, pid, tid }
+            let orders : Option (List (List (List Char))) := ordersL.head?
+            let tail := String.join (ordersF.map (" " ++ ·))
+            if ordersF.length > 1 then badCase "observation" else
+            if ops.any (fun | .cfg i => i ≥ cfgs.length | _ => false) then badCase "configuration index" else
+            if fs0L.length ≠ np then badCase "fs0" else
+            let allApps := cfgs.flatMap (fun c => c.apps.map (·.a))
+            if allApps.any (fun a => !isJson a && !C11.classifiable a.app.pattern) then badCase "character outside the sample table" else
+            if allApps.any (fun a => !isJson a && showPats a.ast ≠ a.app.pattern) then badCase "pattern is not the printed AST" else
+            if allApps.any isJson && orders.isNone then badCase "MDC order facts missing" else
+            -- the k-th record op gets the k-th order fact
+            let recIdx : List Nat := (ops.foldl (fun (acc : List Nat × Nat) op =>
+              match op with
+              | .record _ => (acc.1 ++ [acc.2], acc.2 + 1)
+              | .cfg _ => (acc.1 ++ [0], acc.2)) (([] : List Nat), 0)).1
+            let mkRec (i : Nat) (r : RecCase) : SysRecord :=
+              { record := r.record, env := envOf facts thread (orderMdc (orders.bind (·[recIdx.getD i 0]?)) r.mdc) }
+            let fs0 : FS := fun q => (fs0L.getD q none)
+            let bundles := cfgs.map bundleOf
+            let b0 := bundleOf c0
+            let specOpsL : List SpecOp := (ops.zipIdx).filterMap fun
+              | (.record r, i) => some (.log (mkRec i r))
+              | (.cfg i, _) => (bundles[i]?).map SpecOp.setConfig
+            let mops := specOpsL.map SpecOp.toOp
+            let head := d ++ " " ++ p ++ " " ++ t ++ " "
+            let valid := cfgs.all fun c => validB c.routing && pathsInj c && c.apps.all (fun x => x.path < np)
+            let wf := allApps.all (fun a => isJson a || wfPats C11.profile.wordBits false a.ast)
+            let model :=
+              if !valid then "INVALID"
+              else if snap then renderWorlds np (sysTraceOps fs0 b0.b mops)
+              else renderWorlds np [sysRunOps fs0 b0.b mops]
+            let prefixes : List (List SpecOp) :=
+              if snap then (List.range specOpsL.length).map (fun i => specOpsL.take (i + 1)) else [specOpsL]
+            let want : List (List (Option Bytes)) := prefixes.map fun pre => specObserve np (specOps fs0 b0 [] pre)
+            let got : Option (List (List (Option Bytes))) :=
+              mapM? (fun s => mapM? (decOpt decBytes) (splitOnChar ',' s)) (splitOnChar '/' implResult)
+            let spec :=
+              if !valid then "FAIL:generator produced an invalid configuration;sig=C01/sys2-invalid-config"
+              else if !wf then "FAIL:generator produced a pattern outside WF;sig=C01/sys2-pattern-outside-wf"
+              else if implResult = "PANIC" then "FAIL:the pipeline panicked;sig=C01/sys2-panic"
+              else if implResult = "INVALID" then "FAIL:the builder refused a valid configuration;sig=C01/sys2-builder-refused"
+              else match got with
+                | none => "FAIL:unreadable observation;sig=C01/sys2-observation"
+                | some got =>
+                  if got = want then "ok"
+                  else if got.length ≠ want.length then "FAIL:number of snapshots;sig=C01/sys2-observation"
+                  else
+                    let i := firstDiff got want 0
+                    let g := got.getD i []
+                    let w := want.getD i []
+                    let q := firstDiff g w 0
+                    let len := fun (o : Option Bytes) => match o with | some b => toString b.length ++ " bytes" | none => "no file"
+                    "FAIL:path " ++ toString q ++ " after " ++ (if snap then "op " ++ toString i else "the history") ++
+                      " holds " ++ len ((g.getD q none)) ++ ", the specification says " ++ len ((w.getD q none)) ++
+                      ";sig=C01/sys2-files"
+            -- coverage tags: walk the history with the specification's filesystem
+            let segs : List (Nat × FS × Nat) :=   -- (configuration installed, filesystem it was built on, previous configuration)
+              (ops.foldl (fun (acc : List (Nat × FS × Nat) × Nat × List SpecOp) op =>
+                match op with
+                | .record r => (acc.1, acc.2.1, acc.2.2 ++ [SpecOp.log { record := r.record, env := envOf facts thread r.mdc }])
+                | .cfg i =>
+                  let fsNow := specOps fs0 b0 [] acc.2.2
+                  (acc.1 ++ [(i, fsNow, acc.2.1)], i, acc.2.2 ++ ((bundles[i]?).map SpecOp.setConfig).toList))
+                (([] : List (Nat × FS × Nat)), 0, ([] : List SpecOp))).1
+            let cfgAt (i : Nat) : Option Cfg2 := cfgs[i]?
+            let anySeg (f : Cfg2 → FS → Cfg2 → Bool) : Bool :=
+              segs.any fun (i, fsNow, prev) => match cfgAt i, cfgAt prev with
+                | some c, some pc => f c fsNow pc
+                | _, _ => false
+            let nonEmpty (fsNow : FS) (q : Nat) : Bool := ((fsNow q).getD []).length > 0
+            let recs := ops.filterMap fun | .record r => some r | _ => none
+            let tags := ["sys2", "reconfig-" ++ toString (min segs.length 4)] ++
+              (if anySeg (fun c fsNow _ => c.apps.any fun x => x.a.app.mode == .truncate && nonEmpty fsNow x.path)
+                then ["truncate-on-reopen"] else []) ++
+              (if anySeg (fun c fsNow _ => c.apps.any fun x => x.a.app.mode == .append && nonEmpty fsNow x.path)
+                then ["append-on-reopen"] else []) ++
+              (if anySeg (fun c _ pc => c.apps.any fun x => pc.apps.any fun y => y.path = x.path && y.a.name ≠ x.a.name)
+                then ["path-under-other-name"] else []) ++
+              (if anySeg (fun c _ pc => c.apps.any fun x => pc.apps.any fun y => y.a.name = x.a.name && y.path ≠ x.path)
+                then ["name-on-other-path"] else []) ++
+              (if anySeg (fun c fsNow pc => pc.apps.any fun y => nonEmpty fsNow y.path && !(c.apps.any fun x => x.path = y.path))
+                then ["path-orphaned"] else []) ++
+              (if anySeg (fun c _ pc => c.apps.length ≠ pc.apps.length) then ["table-size-changes"] else []) ++
+              (if anySeg (fun c _ pc => c.apps.any fun x => pc.apps.any fun y => y.path = x.path && y.a.app.mode != x.a.app.mode)
+                then ["mode-changed"] else []) ++
+              (if segs.any (fun (i, _, prev) => i = prev) then ["same-config-reinstalled"] else []) ++
+              (if (ops.getLast?).any (fun | .cfg _ => true | _ => false) then ["ends-with-setConfig"] else []) ++
+              (if snap then ["snapshots"] else []) ++
+              (if recs.isEmpty then ["trivial"] else [])
+            let tags := tags ++ (if allApps.any isJson then ["json-appender"] else [])
+            { model := head ++ model ++ tail, spec, tags }
+          | _, _, _, _, _ => badCase "facts"
+        | _, _, _ => badCase "decode"
+      | _ => badCase "configurations"
+    | _, _, _, _, _ => badCase "header"
   | _, _ => badCase "arity"
 
 end Driver.Sys
